@@ -524,6 +524,29 @@ impl C11 {
                     cuts.insert(1, c);
                 }
             }
+            // a cut at a power-of-two offset (a single bit of the 13 bit offset field set), half of the
+            // time as the start of the last fragment
+            if rng.chance(1, 3) {
+                let c = 8usize << rng.below(13);
+                if c < total {
+                    // (one fragment carries at most 65535 - 60 bytes)
+                    if rng.bool() && total - c <= 65_000 {
+                        cuts.retain(|x| *x < c || *x == total);
+                    }
+                    if !cuts.contains(&c) {
+                        cuts.push(c);
+                        cuts.sort();
+                    }
+                    rep.count("cuts.power_of_two_offset");
+                }
+            }
+            // no piece larger than one IP packet can carry
+            loop {
+                match (0..cuts.len() - 1).find(|i| cuts[i + 1] - cuts[*i] > 60_000) {
+                    Some(i) => cuts.insert(i + 1, cuts[i] + 32_768),
+                    None => break,
+                }
+            }
             // an empty final fragment (carries only the end) where the length allows it
             let empty_final = total % 8 == 0 && rng.chance(1, 4);
             for i in 0..cuts.len() - 1 {
@@ -558,8 +581,15 @@ impl C11 {
                 if a == 0 && !more {
                     continue; // would be the unfragmented datagram
                 }
+                if l > 65_000 {
+                    continue; // more than one IP packet can carry
+                }
                 queue.push((si, a, l, more));
             }
+        }
+        if queue.iter().any(|q| q.2 > 65_000) {
+            rep.selfcheck_fail("harness generated a fragment larger than one IP packet can carry".to_string());
+            return;
         }
         // delivery order: random permutation (interleaves the datagrams)
         for i in (1..queue.len()).rev() {
